@@ -78,8 +78,76 @@ fn compositions<E: Elem>(out: &mut Out, rng: &mut Rng, n: usize, maxdim: usize, 
     }
 }
 
+/// the order operations on matrices whose buffer has spare capacity (left behind by a shrinking
+/// `resize`: capacity >= 3 x size) — state of an earlier operation that the data path might rely on
+fn single_ops_spare_capacity<E: Elem>(out: &mut Out, bound: usize) {
+    for nr in 1..=bound {
+        for nc in 1..=bound {
+            for order in ORDERS {
+                out.case(&format!("spare-capacity elem={} shape={nr}x{nc} order={}", E::KIND, ord_ch(order)));
+                if nr > 1 && nc > 1 { out.nontrivial(); }
+                let mut w = World::<E>::new(out);
+                for (name, arg) in OPS {
+                    w.new_matrix(out, 0, order, 3 * nr, nc + 1, 1);
+                    w.resize(out, 0, nr, nc);
+                    let m = w.regs[0].as_ref().unwrap();
+                    if !E::ZST && m.capacity() < 2 * m.size() { out.oracle_fail("harness: expected spare capacity after the shrinking resize"); }
+                    w.order_op(out, 0, name, arg);
+                    w.order_op(out, 0, name, arg);
+                    w.drop_reg(out, 0);
+                }
+            }
+        }
+    }
+}
+
+/// the order operations on matrices of zero-sized elements with up to usize::MAX elements: nothing is
+/// moved, so every one of them returns at once with the logical shape the operation prescribes
+fn huge_zero_sized(out: &mut Out) {
+    use matreex::{Matrix, Order};
+    out.case("order operations on huge zero-sized matrices");
+    out.nontrivial();
+    let h = usize::MAX;
+    for (r, c) in [(h, 1usize), (1, h), (2, isize::MAX as usize), (3, h / 3), (1usize << 32, (1usize << 32) - 1), (65536, 65537)] {
+        for order in ORDERS {
+            for name in ["transpose", "switch", "switch_wr", "set_order_other", "set_order_same", "set_order_wr_other"] {
+                let op = format!("oracle zst-order-op {name} {r} {c} {}", ord_ch(order));
+                out.announce(&op);
+                let mut v: Vec<()> = Vec::new();
+                unsafe { v.set_len(r * c) };
+                let mut m = crate::common::mk_from(order, r, c, v);
+                let other = if order == Order::RowMajor { Order::ColMajor } else { Order::RowMajor };
+                let res = catch(|| { match name {
+                    "transpose" => { m.transpose(); }
+                    "switch" => { m.switch_order(); }
+                    "switch_wr" => { m.switch_order_without_rearrangement(); }
+                    "set_order_other" => { m.set_order(other); }
+                    "set_order_same" => { m.set_order(order); }
+                    _ => { m.set_order_without_rearrangement(other); }
+                } });
+                // logical shape / order afterwards
+                let want = match name {
+                    "transpose" => (c, r, order),
+                    "switch" | "set_order_other" => (r, c, other),
+                    "set_order_same" => (r, c, order),
+                    _ => (c, r, other),
+                };
+                if res.is_none() { out.oracle_fail(&format!("{op}: panicked")); }
+                else if (m.nrows(), m.ncols(), m.order()) != want || m.size() != r * c {
+                    out.oracle_fail(&format!("{op}: got {}x{} {:?} over {} elements, expected {}x{} {:?} over {}", m.nrows(), m.ncols(), m.order(), m.size(), want.0, want.1, want.2, r * c));
+                }
+                let _: &Matrix<()> = &m;
+                out.observe("ok");
+            }
+        }
+    }
+}
+
 pub fn run_c05(out: &mut Out, rng: &mut Rng, tier: Tier) -> String {
     ledger_reset();
+    single_ops_spare_capacity::<Tok>(out, 4);
+    single_ops_spare_capacity::<u32>(out, 3);
+    huge_zero_sized(out);
     let bound = if tier == Tier::Quick { 9 } else { 12 };
     single_ops::<Tok>(out, bound);
     single_ops::<()>(out, if tier == Tier::Quick { 4 } else { 6 });
